@@ -17,6 +17,7 @@ key=$( { find "$REPO" -name '*.go' -not -path '*/.git/*' -not -path '*/_fixtures
          sha256sum "$VROOT/go.mod"; echo "$MODE $REPO"; \
          if [ -n "${VERIF_BASE_OVERLAY:-}" ]; then cat "$VERIF_BASE_OVERLAY"; python3 -c "import json,sys;[sys.stdout.write(open(v).read()) for v in json.load(open(sys.argv[1]))['Replace'].values()]" "$VERIF_BASE_OVERLAY"; fi; } | sha256sum | cut -c1-24)
 dir=.work/cache/$key
+if [ -x "$dir/mc" ]; then touch "$dir" 2>/dev/null || true; fi
 if [ ! -x "$dir/mc" ]; then
   tmp=$(mktemp -d .work/cache/tmp.XXXXXX)
   trap 'rm -rf "$tmp"' EXIT
@@ -37,6 +38,9 @@ if [ ! -x "$dir/mc" ]; then
   fi
   trap - EXIT
   # keep the cache small: newest 4 entries
-  ls -1dt .work/cache/*/ 2>/dev/null | tail -n +5 | xargs -r rm -rf
+  # (only entries not used for 45 minutes, so that concurrently running checks keep theirs)
+  ls -1dt .work/cache/*/ 2>/dev/null | tail -n +5 | while read -r d; do
+    if [ -n "$(find "$d" -maxdepth 0 -mmin +45 2>/dev/null)" ]; then rm -rf "$d"; fi
+  done
 fi
 echo "$VROOT/$dir/mc"
